@@ -359,6 +359,43 @@ def run_corpus(pid, tier, seed, out):
     return divs
 
 
+def run_apalache(pid, out):
+    """Unbounded obligations on the pure operators the model shares with the Apalache module (props.APALACHE)."""
+    import subprocess
+    if pid not in props.APALACHE:
+        return []
+    mod, obligations = props.APALACHE[pid]
+    wd = os.path.join(WORK, '%s-%d-apalache' % (pid, os.getpid()))
+    shutil.rmtree(wd, ignore_errors=True)
+    os.makedirs(wd)
+    shutil.copy(os.path.join(ROOT, 'spec', 'Windows.tla'), wd)
+    shutil.copy(os.path.join(ROOT, 'spec', 'apalache', mod + '.tla'), wd)
+    res = []
+    fails = []
+    t0 = time.time()
+    for init, inv, length, what in obligations:
+        cmd = ['apalache-mc', 'check', '--init=' + init, '--inv=' + inv, '--length=%d' % length, '--out-dir=' + os.path.join(wd, 'out'), mod + '.tla']
+        try:
+            p = subprocess.run(cmd, cwd=wd, stdout=subprocess.PIPE, stderr=subprocess.STDOUT, text=True, timeout=600)
+            ok = 'The outcome is: NoError' in p.stdout
+            tail = p.stdout[-600:]
+        except subprocess.TimeoutExpired:
+            ok, tail = False, 'timeout'
+        res.append({'obligation': '%s => %s (length %d): %s' % (init, inv, length, what), 'discharged': ok, 'cmd': ' '.join(cmd[:5] + [mod + '.tla'])})
+        if not ok:
+            if 'outcome is: Error' in tail or 'violat' in tail.lower():
+                fails.append({'kind': 'formula-on-trace', 'what': 'Apalache: obligation %s => %s of %s.tla is not discharged' % (init, inv, mod),
+                              'scenario': mod, 'fields': [], 'call': None, 'a': None, 'x': None, 'dev': [], 'dev_before': [], 'meta': None,
+                              'steps': None})
+            else:
+                out['machinery'].append('apalache failed on %s: %s' % (mod, tail[-400:]))
+    shutil.rmtree(wd, ignore_errors=True)
+    out['apalache'] = {'module': 'spec/apalache/%s.tla (operators of spec/Windows.tla, shared with spec/H2.tla)' % mod,
+                       'obligations': len(res), 'discharged': sum(1 for r in res if r['discharged']), 'detail': res,
+                       'wall_s': round(time.time() - t0, 1)}
+    return fails
+
+
 def strip_obs(s):
     return {k: v for k, v in s.items() if k != 'p'}
 
@@ -426,6 +463,8 @@ def do_check(pid, tier, seed):
     all_divs += out['tv'].pop('divs')
     # (5) the repository's own tests, recorded: code -> spec
     all_divs += run_corpus(pid, tier, seed, out)
+    # (6) unbounded obligations (Apalache), where registered
+    all_divs += run_apalache(pid, out)
     foreign = collections.Counter()
     tainted = collections.Counter()
     for d in all_divs:
@@ -480,6 +519,7 @@ def do_check(pid, tier, seed):
             'recorded_traces_validated_by_tlc': out['tv'].get('traces', 0),
             'trace_validation': dict(out['tv'], propfails=dict(out['tv']['propfails'])),
             'repository_tests_recorded_and_validated': out['corpus'],
+            'apalache_inductive_obligations': out.get('apalache', {}),
             'deviation_branches_still_reproducing': sorted(alive),
             'steps_replayed': out['steps'],
             'evaluations': out['behaviours'],
